@@ -55,6 +55,13 @@ def gen(rng, tier):
             d = S.rand_surface(rng, maxp=3, max_interior=2, allow_range=ar, clamped=cl)
         else:
             d = S.rand_volume(rng, maxp=2, max_interior=1, allow_range=ar, clamped=cl)
+        if not ar and d['kind'] != 'curve' and rng.random() < .3:
+            # knot ranges of length 1 (sample sizes are honoured, F-01 does not apply) that start at a DIFFERENT value in every
+            # direction: the object keeps them (normalize_kv=False), a u / v mix-up of the default grid ends must show
+            for j_, key in enumerate(['kvu', 'kvv', 'kvw'][:len(S.dirs(d))]):
+                sh_ = F([2, -1, 5][j_])
+                d[key] = [x + sh_ for x in d[key]]
+            G.count('knot_range', 'unit-length-shifted-per-direction')
         hi = 12 if d['kind'] == 'curve' else (6 if d['kind'] == 'surface' else 4)
         sizes = [rng.randint(2, hi) for _ in S.dirs(d)]
         deltas = [(kv[n_] - kv[p]) / sz for (p, kv, n_), sz in zip(S.dirs(d), sizes)]
